@@ -73,10 +73,14 @@ class TypeGen:
             hi = lo + d(st.integers(0, 4))
             if chance(d, 0.5):
                 c["min"] = lo
+                if chance(d, 0.12):  # inclusive and exclusive bound together (either may be the binding one)
+                    c["exc_min"] = lo + d(st.integers(-2, 1))
             elif chance(d, 0.3):
                 c["exc_min"] = lo - 1
             if chance(d, 0.5):
                 c["max"] = hi
+                if chance(d, 0.12):
+                    c["exc_max"] = hi + d(st.integers(-1, 2))
             elif chance(d, 0.3):
                 c["exc_max"] = hi + 1
             if chance(d, 0.2):
